@@ -113,8 +113,83 @@ def w_mean_grp(w, cfg):
     w.vacuity("mean_grp.assumptions", assume)
 
 
+def w_accessor(w, cfg):
+    """RollingWindowAlgos.sum / PixelAlgorithms.mean_grp over xarray contracts: nodata resolution, dtype handed to the kernel,
+    trimming of the first window-1 positions. Input dtype is configuration (int16 / int32 / int64), values and nodata symbolic
+    over the whole range of that dtype - a conversion to float32 before the kernel would no longer be exact."""
+    from . import xr_stubs as X
+    from pysym.interp import Instance
+    from pysym.arr import INT_RANGES
+    n, win, dt, which = cfg["n"], cfg["window"], cfg["dtype"], cfg["which"]
+    lo, hi = INT_RANGES[dt]
+    it = C.new_interp(policy="exact" if which == "rolling" else "poly")
+    st = State()
+    xs = [z3.Int(f"x{i}") for i in range(n)]
+    nd = z3.Int("nodata")
+    assume = [z3.And(x >= lo, x <= hi) for x in xs] + [nd >= lo, nd <= hi]
+    it.assume(*assume)
+    da = X.StubDA(xs, ("time",), list(range(n)), dtype=dt, attrs=({"nodata": nd} if cfg["nodata_from"] == "attrs" else {}))
+    rec = []
+    it.lib_overrides["xarray.apply_ufunc"] = X.make_apply_ufunc(C.make_out, rec)
+
+    def conc(m):
+        return {"kind": "accessor", "which": which, "xx": [C.model_value(m, x) for x in xs], "nodata": C.model_value(m, nd), "window": win,
+                "dtype": dt, "nodata_from": cfg["nodata_from"], "groups": cfg.get("groups")}
+    if which == "rolling":
+        cls = it.get_function("hdc.algo.accessors", "RollingWindowAlgos")
+        cls.link_bases(it)
+        inst = Instance(cls)
+        inst.fields["_obj"] = da
+        kw = {"window_size": win}
+        if cfg["nodata_from"] == "arg":
+            kw["nodata"] = nd
+        res = it.call_function(st, cls.methods["sum"], [inst], kw)
+        w.res.encoded.update(it.encoded)
+        lem = list(it.A.lemmas)
+        if not isinstance(res, X.StubDA):
+            raise V.Unsupported("rolling.sum did not return a DataArray")
+        w.discharge("rolling.sum.trimmed_length", [], z3.BoolVal(len(res.vals) == n - win + 1), concretize=conc)
+        if len(res.vals) != n - win + 1:
+            return
+        ndr = z3.ToReal(nd)
+        for k, cell in enumerate(res.vals):
+            ii = k + win - 1
+            if isinstance(cell, V.Partial):
+                w.discharge(f"rolling.sum.written[{ii}]", assume, cell.defined, lemmas=lem, concretize=conc)
+                cell = cell.value
+            cells = xs[ii - win + 1: ii + 1]
+            valid = [c != nd for c in cells]
+            vsum = z3.ToReal(z3.Sum([z3.If(v, c, 0) for v, c in zip(valid, cells)]))
+            allv, nov = z3.And(*valid), z3.Not(z3.Or(*valid))
+            o = V.to_real(cell)
+            claim = z3.If(allv, o == vsum, z3.If(nov, o == ndr, z3.Or(o == ndr, o == vsum)))
+            w.discharge(f"rolling.sum.value[{ii}]", assume, claim, lemmas=lem, concretize=conc, sample=(k == 0))
+    else:
+        groups = cfg["groups"]
+        cls = it.get_function("hdc.algo.accessors", "PixelAlgorithms")
+        cls.link_bases(it)
+        inst = Instance(cls)
+        inst.fields["_obj"] = da
+        garr = it.new_array(st, (n,), "int16", cells=list(groups))
+        kw = {"groups": garr}
+        if cfg["nodata_from"] == "arg":
+            kw["nodata"] = nd
+        res = it.call_function(st, cls.methods["mean_grp"], [inst], kw)
+        w.res.encoded.update(it.encoded)
+        lem = list(it.A.lemmas)
+        for i, cell in enumerate(res.vals):
+            if isinstance(cell, V.Partial):
+                cell = cell.value
+            mem = [j for j in range(n) if groups[j] == groups[i]]
+            cnt = z3.Sum([z3.If(xs[j] != nd, 1, 0) for j in mem])
+            ssum = z3.Sum([z3.If(xs[j] != nd, xs[j], 0) for j in mem])
+            o = V.to_real(cell)
+            claim = z3.If(cnt == 0, o == z3.ToReal(nd), o * z3.ToReal(cnt) == z3.ToReal(ssum))
+            w.discharge(f"mean_grp_accessor.value[{i}]", assume, claim, lemmas=lem, concretize=conc)
+
+
 def worker(w, cfg):
-    {"rolling": w_rolling, "rolling_pair": w_rolling_pair, "mean_grp": w_mean_grp}[cfg["kind"]](w, cfg)
+    {"rolling": w_rolling, "rolling_pair": w_rolling_pair, "mean_grp": w_mean_grp, "accessor": w_accessor}[cfg["kind"]](w, cfg)
 
 
 # ---------------------------------------------------------------- configurations
@@ -141,6 +216,13 @@ def configs(tier):
         for lab in labelings(n, 3):
             for miss in itertools.product([False, True], repeat=n):
                 cf.append({"kind": "mean_grp", "groups": lab, "miss": list(miss)})
+    for dt in ("int16", "int32", "int64"):
+        for n, win in ((3, 2), (4, 3), (3, 1), (3, 3)):
+            for src in ("attrs", "arg"):
+                cf.append({"kind": "accessor", "which": "rolling", "n": n, "window": win, "dtype": dt, "nodata_from": src})
+    for dt in ("int16", "int32"):
+        for groups in ([0, 0, 1], [0, 1, 0, 1]):
+            cf.append({"kind": "accessor", "which": "mean_grp", "n": len(groups), "window": 1, "dtype": dt, "nodata_from": "attrs", "groups": groups})
     return cf
 
 
@@ -194,6 +276,8 @@ def replay_candidate(chk, c):
     elif k == "rolling_pair":
         r = chk.replayer.call("c17_rolling_pair", vals=inp["vals"], miss=inp["miss"], window=inp["window"],
                               nd1=inp["nd1"], nd2=inp["nd2"])
+    elif k == "accessor":
+        r = chk.replayer.call("c17_accessor", **{a: b for a, b in inp.items() if a != "kind"})
     else:
         r = chk.replayer.call("c17_mean_grp", xx=inp["xx"], groups=inp["groups"], nodata=inp["nodata"])
     return bool(r["violates"]), r
